@@ -50,6 +50,13 @@ func init() {
 			src = eagerEOFReaderAt{buf}
 			mode = ""
 		}
+		if mode == "failone" {
+			// a reader that breaks down behind the global magic: every later read delivers ONE byte and an error that
+			// is not io.EOF (an I/O error on the medium).  Whatever that byte is, the iteration ends in an error - a
+			// read error is not the end of the archive
+			src = failAfterOneReaderAt{buf}
+			mode = ""
+		}
 		if mode == "bigsection" {
 			// an io.SectionReader that claims far more bytes than are behind it (an open-ended section of a file):
 			// its Size() is not the length of the archive
@@ -131,4 +138,21 @@ func init() {
 	// ariterlazy buf mode: the same archive walked by a consumer that does not read (skip) or hardly reads (one)
 	// the members while iterating; everything it later reads must be what the eager consumer saw
 	ops["ariterlazy"] = func(a []string) string { return iter(a[:1], arg(a, 1)) }
+}
+
+type failAfterOneReaderAt struct{ b []byte }
+
+func (f failAfterOneReaderAt) ReadAt(p []byte, off int64) (int, error) {
+	if off < 8 {
+		n := copy(p, f.b[off:])
+		if n < len(p) {
+			return n, io.EOF
+		}
+		return n, nil
+	}
+	if off >= int64(len(f.b)) || len(p) == 0 {
+		return 0, fmt.Errorf("input/output error")
+	}
+	p[0] = f.b[off]
+	return 1, fmt.Errorf("input/output error")
 }
